@@ -238,6 +238,8 @@ class Interp:
         # Box<T>/Reference<T> forwarding impls of local traits (Format for Box<T>): treated as transparent
         self.origin_params = ORIGIN_PARAMS
         self.pass2 = False
+        self._roles = {}
+        self._roles_busy = set()
 
     # ------------------------------------------------------------ summaries
     def summary(self, path):
@@ -274,6 +276,66 @@ class Interp:
         finally:
             self.pass2 = False
 
+    def _param_roles(self, b):
+        """A `usize` parameter that is added to a Reference's `.offset` (or passed on as such) is an accumulated origin of
+        the function's frame; a token-slice parameter that is indexed `tokens[origin..]` is the absolute token vector."""
+        key = b["p"]
+        if key in self._roles:
+            return self._roles[key]
+        c = b["_crate"]
+        ty = self.types[c.name]
+        nums, toks = {}, {}
+        for p in b["params"]:
+            if p.get("k") == "Binding":
+                t = c.tstr(p["bt"]).replace("&", "").strip()
+                if t == "usize":
+                    nums[p["id"]] = p
+                elif ty.cls(p["bt"]) == "toks":
+                    toks[p["id"]] = p
+        roles = {}
+        origin_ids = set()
+        for n in hir.nodes(b["body"], "Binary"):
+            if n["op"] != "+":
+                continue
+            sides = [hir.strip_ref(n["l"]), hir.strip_ref(n["r"])]
+            loc = [x for x in sides if x.get("k") == "Path" and x["res"].get("k") == "Local" and x["res"]["id"] in nums]
+            off = [x for x in sides if x.get("k") == "Field" and x["name"] == "offset" and ty.cls(x["base"]["t"]) == "ref"]
+            if loc and off:
+                origin_ids.add(loc[0]["res"]["id"])
+        for n in hir.nodes(b["body"], "Index"):
+            base = hir.strip_ref(n["base"])
+            idx = hir.strip(n["idx"])
+            if base.get("k") == "Path" and base["res"].get("k") == "Local" and base["res"]["id"] in toks and idx.get("k") == "Struct":
+                for f in idx["fields"]:
+                    v = hir.strip_ref(f["e"])
+                    if f["name"] == "start" and v.get("k") == "Path" and v["res"].get("k") == "Local" and v["res"]["id"] in nums:
+                        # tokens[offset..]: `offset` is an origin, `tokens` the absolute vector (only if offset is accumulated somewhere)
+                        if v["res"]["id"] in origin_ids or self._passed_accumulated(b, v["res"]["id"]):
+                            origin_ids.add(v["res"]["id"])
+                            roles[base["res"]["id"]] = AV("toks", Frame("abs"))
+        for i in origin_ids:
+            roles[i] = AV("orig", Frame("here"))
+        # a token parameter that is only handed on to functions of the same shape inherits the role (find_call_stmt -> .._in_stmt)
+        if origin_ids and not any(v.k == "toks" for v in roles.values()):
+            for tid in toks:
+                for call in hir.nodes(b["body"], "Call"):
+                    hb = hir.local_callee_body(self.prog, call)
+                    if hb is None or hb["p"] == b["p"]:
+                        continue
+                    hr = self._param_roles(hb) if hb["p"] not in self._roles_busy else {}
+                    for ai, a in enumerate(call["args"]):
+                        a_ = hir.strip_ref(a)
+                        if a_.get("k") == "Path" and a_["res"].get("k") == "Local" and a_["res"]["id"] == tid and ai < len(hb["params"]):
+                            pp = hb["params"][ai]
+                            if pp.get("k") == "Binding" and hr.get(pp["id"]) is not None and hr[pp["id"]].k == "toks":
+                                roles[tid] = AV("toks", Frame("abs"))
+        self._roles[key] = roles
+        return roles
+
+    def _passed_accumulated(self, b, pid):
+        """is parameter `pid` bound, at some call site of b, to `x + r.offset`?"""
+        return False
+
     def _returns_identifier(self, b):
         if "sig_out" not in b:
             return False
@@ -294,8 +356,9 @@ class Interp:
             cls = ty.cls(p["bt"])
             name = p["name"]
             key = (b["p"], name)
-            if key in self.origin_params:
-                av = self.origin_params[key]
+            roles = self._param_roles(b)
+            if p["id"] in roles:
+                av = roles[p["id"]]
             elif cls == "ref":
                 av = AV("ref", Frame("here"), sym="param:%s#%s" % (name, p["id"]))
                 ref_params.append((i, av))
@@ -359,11 +422,6 @@ def origin(path, name, av):
     ORIGIN_PARAMS[(path, name)] = av
 
 
-for fn in ("find_call_stmt", "find_call_stmt_in_stmt", "find_call_stmt_in_stmt::get_in_option"):
-    origin("lsp4spl::features::signature_help::" + fn, "offset", AV("orig", Frame("here")))
-    origin("lsp4spl::features::signature_help::" + fn, "tokens", AV("toks", Frame("abs")))
-for imp in range(0, 8):
-    pass
 
 
 class State:
@@ -1108,9 +1166,10 @@ class State:
                 declared.append(bty.cls(p["bt"]) if p.get("k") == "Binding" else "other")
         for i, av in enumerate(args):
             dcl = declared[i] if i < len(declared) else None
-            okey = (path, body["params"][i]["name"]) if body is not None and i < len(body["params"]) and body["params"][i].get("k") == "Binding" else None
-            if okey in ORIGIN_PARAMS and ORIGIN_PARAMS[okey].k == "toks" and ORIGIN_PARAMS[okey].frame.base == "abs":
-                continue  # declared absolute token vector
+            if body is not None and i < len(body["params"]) and body["params"][i].get("k") == "Binding":
+                role = self.I._param_roles(body).get(body["params"][i]["id"])
+                if role is not None and role.k == "toks" and role.frame.base == "abs":
+                    continue  # the callee treats this slice as the absolute token vector (it indexes it with an origin)
             if av.k == "ref":
                 if dcl == "ref":
                     frames.append(("ref", av.frame, i))
